@@ -35,7 +35,7 @@ def plan(pid, tier, seed):
         runs.append(("tour", lambda: engines.tour(tier, seed)))
     if pid in ("C01", "C08", "C12"):
         runs.append(("inductive", lambda: engines.inductive(tier, seed)))
-    if pid in ("C12", "C10", "C09"):
+    if pid in ("C12", "C10", "C09", "C01"):
         runs.append(("capacity", lambda: engines.capacity(tier, seed)))
     if pid in ("C03", "C04", "C10"):
         runs.append(("monitor", lambda: engines.monitor(tier, seed)))
